@@ -828,6 +828,9 @@ func c13(c *core.Ctx) {
 	// through) a long-lived object for another call to find (C01/R1) — a pooled options struct whose credentials
 	// field is not reset sends one caller's token with another caller's request
 	c.Borrow("C01", map[string]string{"R1": "R6"}, c01)
+	// "the call fails before any request is issued": an error met while the request's headers are built from the
+	// credentials' metadata is not dropped on the way (C02/R4: no discarded error result outside the justified table)
+	c.Borrow("C02", map[string]string{"R4": "R7"}, c02)
 }
 
 // mustCallRoundTrip: fn (or a static callee, depth ≤ 2) invokes RoundTrip.
